@@ -368,7 +368,9 @@ Definition spec_sstore (a : setalg) (s : sstate) (dest : bytes) (keys : list byt
   | [] => (s, out_ok (VI 0))
   | _ =>
       if other_type s dest 3 then (s, out_err EKeyType) else
-      let r := spec_alg a s keys in
+      (* (the order of a set is irrelevant; the members are kept sorted here so
+         that the stored representation can be compared literally) *)
+      let r := isort String.leb (spec_alg a s keys) in
       (sput_val s dest (AVSet r), out_ok (VI (zlen r)))
   end.
 
